@@ -64,7 +64,7 @@ def gen():
     if "whilereader.read_record(&mutrecord)" not in rb or "self.read_record(&record)?;" not in rb:
         raise F.FactError("read_bytes no longer turns every csv record into a row")
     rr = _norm(F.fn_body(lx, "read_record", "build/lexicon.rs"))
-    if rr != "self.parse_record(data).map(|r|self.entries.push(r))":
+    if not re.fullmatch(r"self\.parse_record\(data\)\.map\(\|(\w+)\|self\.entries\.push\(\1\)\)", rr):
         raise F.FactError("read_record no longer pushes every parsed record")
     out.append('Definition csv_reader_options : string := "%s".\n' % ";".join(opts))
     out.append("Definition every_record_is_a_row : bool := true.\n")
